@@ -296,6 +296,134 @@ fn to_recs(changes: &[gix_diff::tree::recorder::Change]) -> Vec<Rec> {
     v
 }
 
+
+// ---------------- state re-use (histories of diffs on ONE `gix_diff::tree::State`) ----------------
+
+/// In-memory tree store with an optional hidden object (simulates a missing sub-tree -> Error::Find).
+struct Mem<'a> {
+    objects: &'a HashMap<ObjectId, Vec<u8>>,
+    hidden: Option<ObjectId>,
+}
+impl gix_object::Find for Mem<'_> {
+    fn try_find<'b>(&self, id: &gix_hash::oid, buffer: &'b mut Vec<u8>) -> Result<Option<gix_object::Data<'b>>, gix_object::find::Error> {
+        if self.hidden.as_deref() == Some(id) {
+            return Ok(None);
+        }
+        Ok(self.objects.get(id).map(|d| {
+            buffer.clear();
+            buffer.extend_from_slice(d);
+            gix_object::Data { kind: gix_object::Kind::Tree, data: buffer }
+        }))
+    }
+}
+
+/// how a diff of a history ends: runs to completion, the delegate cancels at the k-th change (1-based),
+/// or the j-th (0-based, sorted by id) sub-tree of the two trees is missing from the object database
+#[derive(Serialize, Deserialize, Hash, Clone, Debug, PartialEq, Eq)]
+enum Stop {
+    Complete,
+    CancelAt(usize),
+    Missing(usize),
+}
+
+#[derive(Serialize, Deserialize, Hash, Clone, Debug)]
+struct Step {
+    /// path maps written as "path=kind,path=kind"
+    a: String,
+    b: String,
+    stop: Stop,
+}
+
+#[derive(Serialize, Deserialize, Hash, Clone, Debug)]
+struct History {
+    steps: Vec<Step>,
+}
+
+fn map_key(m: &Map) -> String {
+    m.iter().map(|(p, k)| format!("{p}={k}")).collect::<Vec<_>>().join(",")
+}
+
+struct Cancelling {
+    inner: gix_diff::tree::Recorder,
+    cancel_at: Option<usize>,
+    seen: usize,
+}
+impl gix_diff::tree::Visit for Cancelling {
+    fn pop_front_tracked_path_and_set_current(&mut self) {
+        self.inner.pop_front_tracked_path_and_set_current()
+    }
+    fn push_back_tracked_path_component(&mut self, component: &bstr::BStr) {
+        self.inner.push_back_tracked_path_component(component)
+    }
+    fn push_path_component(&mut self, component: &bstr::BStr) {
+        self.inner.push_path_component(component)
+    }
+    fn pop_path_component(&mut self) {
+        self.inner.pop_path_component()
+    }
+    fn visit(&mut self, change: gix_diff::tree::visit::Change) -> gix_diff::tree::visit::Action {
+        self.inner.visit(change);
+        self.seen += 1;
+        if Some(self.seen) == self.cancel_at {
+            gix_diff::tree::visit::Action::Cancel
+        } else {
+            gix_diff::tree::visit::Action::Continue
+        }
+    }
+}
+
+/// all sub-tree ids below the two roots (sorted, distinct)
+fn subtrees(objects: &HashMap<ObjectId, Vec<u8>>, roots: [ObjectId; 2]) -> Vec<ObjectId> {
+    let mut out = BTreeSet::new();
+    let mut todo = roots.to_vec();
+    while let Some(id) = todo.pop() {
+        let Some(data) = objects.get(&id) else { continue };
+        for e in gix_object::TreeRefIter::from_bytes(data).flatten() {
+            if e.mode.is_tree() && out.insert(e.oid.to_owned()) {
+                todo.push(e.oid.to_owned());
+            }
+        }
+    }
+    out.into_iter().collect()
+}
+
+/// one diff on `state`: (ordered records, how it ended)
+fn run_step(
+    objects: &HashMap<ObjectId, Vec<u8>>,
+    state: &mut gix_diff::tree::State,
+    a: ObjectId,
+    b: ObjectId,
+    stop: &Stop,
+) -> (Vec<Rec>, String) {
+    let hidden = match stop {
+        Stop::Missing(j) => subtrees(objects, [a, b]).get(*j).copied(),
+        _ => None,
+    };
+    let db = Mem { objects, hidden };
+    let (mut b1, mut b2) = (Vec::new(), Vec::new());
+    let (Ok(lhs), Ok(rhs)) = (db.find_tree_iter(&a, &mut b1), db.find_tree_iter(&b, &mut b2)) else {
+        vkit::machinery!("root tree missing from the in-memory store");
+    };
+    let mut delegate = Cancelling {
+        inner: gix_diff::tree::Recorder::default(),
+        cancel_at: match stop {
+            Stop::CancelAt(k) => Some(*k),
+            _ => None,
+        },
+        seen: 0,
+    };
+    let res = gix_diff::tree(lhs, rhs, state, &db, &mut delegate);
+    let end = match res {
+        Ok(()) => "complete".to_string(),
+        Err(gix_diff::tree::Error::Cancelled) => "cancelled".to_string(),
+        Err(gix_diff::tree::Error::Find(_)) => "find-error".to_string(),
+        Err(e) => format!("error: {e}"),
+    };
+    // ordered, not sorted: a re-used state must not even change the order
+    let recs = delegate.inner.records.iter().map(|c| to_recs(std::slice::from_ref(c)).remove(0)).collect();
+    (recs, end)
+}
+
 #[derive(Serialize, Deserialize, Hash, Clone, Debug)]
 struct Pair {
     a: Map,
@@ -309,7 +437,11 @@ pub fn run(run: &'static Run) {
          content 1 = same oid as f1), l1 (symlink, same oid as f1), k1 (gitlink); {}; \
          every ORDERED pair (A,B) of these maps incl. A==B. Oracle per pair: multiset of raw records of `git diff-tree -r -t --no-renames` \
          (T folded into M) == gix-diff Recorder records, and applying gitoxide's non-tree changes to A's path map gives B's. \
-         non-trivial = A != B.",
+         non-trivial = A != B. \
+         sub `state-reuse`: histories of 2 or 3 diffs on ONE gix_diff::tree::State; every diff may run to completion, be cancelled by the delegate at \
+         every change index, or hit every possible missing sub-tree (Error::Find); trees: family S = maps with <=2 entries over paths a, a/b, a/b/c, a/c, a0 \
+         and kinds f1/f2, Q = its maps with <=1 entry, R = 5 of those; length 2: first over SxS with every ending, second complete over QxQ (thorough: all pairs of S with at least one side in Q); \
+         length 3: two diffs with every ending + a complete one over RxR (thorough: Q without a0 and a/c). Oracle: each diff's ordered records and outcome == the same diff on a fresh State.",
         if quick {
             "all maps with <=1 entry over all five kinds + all maps with 2 entries over f1/f2/x1"
         } else {
@@ -482,6 +614,160 @@ pub fn run(run: &'static Run) {
             ))
         },
     );
+
+    // ---- sub: histories of 2-3 diffs on ONE re-used State; earlier diffs may end early at every possible point ----
+    // family S: <=2 entries over paths with nested directories and kinds f1/f2; Q: its maps with <=1 entry; R: five maps
+    let reuse_paths = ["a", "a/b", "a/b/c", "a/c", "a0"];
+    let in_family = |m: &Map| m.len() <= 2 && m.iter().all(|(p, k)| reuse_paths.contains(&p.as_str()) && (k == "f1" || k == "f2"));
+    let fam_s: Vec<&Map> = maps.iter().filter(|m| in_family(m)).collect();
+    let fam_q: Vec<&Map> = fam_s.iter().copied().filter(|m| m.len() <= 1).collect();
+    let fam_r: Vec<&Map> = fam_q
+        .iter()
+        .copied()
+        .filter(|m| m.is_empty() || m.values().all(|k| k == "f1") || m.contains_key("a/b"))
+        .filter(|m| !m.contains_key("a0") && !m.contains_key("a/c"))
+        .collect();
+    run.cov("state_reuse_families[S,Q,R]", [fam_s.len(), fam_q.len(), fam_r.len()]);
+    let by_key: HashMap<String, ObjectId> = fam_s.iter().map(|m| (map_key(m), fx.trees[*m])).collect();
+    // all trees of the family in memory (read through gix-odb once)
+    let mut objects: HashMap<ObjectId, Vec<u8>> = HashMap::new();
+    {
+        let odb = fx.store.to_handle_arc();
+        let mut todo: Vec<ObjectId> = by_key.values().copied().collect();
+        let mut buf = Vec::new();
+        while let Some(id) = todo.pop() {
+            if objects.contains_key(&id) {
+                continue;
+            }
+            let data = match odb.find_tree_iter(&id, &mut buf) {
+                Ok(_) => buf.clone(),
+                Err(e) => vkit::machinery!("fixture tree {id} unreadable: {e}"),
+            };
+            for e in gix_object::TreeRefIter::from_bytes(&data).flatten() {
+                if e.mode.is_tree() {
+                    todo.push(e.oid.to_owned());
+                }
+            }
+            objects.insert(id, data);
+        }
+    }
+    // every way a diff of (a, b) can end
+    let stops_of = |a: &Map, b: &Map| -> Vec<Stop> {
+        let (ia, ib) = (fx.trees[a], fx.trees[b]);
+        let (recs, _) = run_step(&objects, &mut gix_diff::tree::State::default(), ia, ib, &Stop::Complete);
+        let mut v = vec![Stop::Complete];
+        v.extend((1..=recs.len()).map(Stop::CancelAt));
+        v.extend((0..subtrees(&objects, [ia, ib]).len()).map(Stop::Missing));
+        v
+    };
+    let early_with_queue = AtomicU64::new(0);
+    let reuse_diffs = AtomicU64::new(0);
+    run.sub_with(
+        "state-reuse",
+        Opts::default().chunk(1 << 14),
+        |emit| {
+            let steps_over = |fam: &[&Map]| -> Vec<Step> {
+                let mut v = Vec::new();
+                for a in fam {
+                    for b in fam {
+                        for stop in stops_of(a, b) {
+                            v.push(Step { a: map_key(a), b: map_key(b), stop });
+                        }
+                    }
+                }
+                v
+            };
+            let complete_over = |fam: &[&Map]| -> Vec<Step> {
+                let mut v = Vec::new();
+                for a in fam {
+                    for b in fam {
+                        v.push(Step { a: map_key(a), b: map_key(b), stop: Stop::Complete });
+                    }
+                }
+                v
+            };
+            // length 2: first over S (every ending), second complete over QxQ (quick) / SxQ + QxS (thorough)
+            let first = steps_over(&fam_s);
+            let mut second = complete_over(&fam_q);
+            if !quick {
+                // thorough: all pairs with at least one side in Q
+                for a in &fam_s {
+                    for b in &fam_s {
+                        if (a.len() <= 1) != (b.len() <= 1) {
+                            second.push(Step { a: map_key(a), b: map_key(b), stop: Stop::Complete });
+                        }
+                    }
+                }
+            }
+            for f in &first {
+                for s in &second {
+                    emit(History { steps: vec![f.clone(), s.clone()] });
+                }
+            }
+            // length 3: first and second with every ending, third complete; over R (quick) / Q' = Q without a0 and a/c (thorough)
+            let fam3: Vec<&Map> = if quick { fam_r.clone() } else { fam_q.iter().copied().filter(|m| !m.contains_key("a0") && !m.contains_key("a/c")).collect() };
+            let early = steps_over(&fam3);
+            let last = complete_over(&fam3);
+            for f in &early {
+                for s in &early {
+                    for l in &last {
+                        emit(History { steps: vec![f.clone(), s.clone(), l.clone()] });
+                    }
+                }
+            }
+        },
+        |h: &History| -> Verdict {
+            let mut state = gix_diff::tree::State::default();
+            let mut nontrivial = false;
+            let mut class = String::new();
+            for (i, step) in h.steps.iter().enumerate() {
+                let (Some(&a), Some(&b)) = (by_key.get(&step.a), by_key.get(&step.b)) else {
+                    vkit::machinery!("history refers to a tree outside the fixture");
+                };
+                let reused = run_step(&objects, &mut state, a, b, &step.stop);
+                let fresh = run_step(&objects, &mut gix_diff::tree::State::default(), a, b, &step.stop);
+                reuse_diffs.fetch_add(1, Ordering::Relaxed);
+                if reused != fresh {
+                    return bad(
+                        "state-reuse",
+                        format!(
+                            "diff #{} ({} -> {}, {:?}) on the re-used State: [{}] ends {}; on a fresh State: [{}] ends {}",
+                            i + 1,
+                            step.a,
+                            step.b,
+                            step.stop,
+                            show(&reused.0),
+                            reused.1,
+                            show(&fresh.0),
+                            fresh.1
+                        ),
+                    );
+                }
+                if i + 1 < h.steps.len() && fresh.1 != "complete" {
+                    // did it end while sub-trees were still scheduled? (a later change exists in the complete run)
+                    let full = run_step(&objects, &mut gix_diff::tree::State::default(), a, b, &Stop::Complete).0;
+                    if full.len() > fresh.0.len() && full.iter().any(|r| r.path.contains('/')) {
+                        nontrivial = true;
+                    }
+                }
+                class.push_str(match fresh.1.as_str() {
+                    "complete" => "C",
+                    "cancelled" => "X",
+                    "find-error" => "F",
+                    _ => "E",
+                });
+            }
+            if nontrivial {
+                early_with_queue.fetch_add(1, Ordering::Relaxed);
+                ok(format!("reuse/{class}"))
+            } else {
+                ok_trivial(format!("reuse/{class}/no-pending-subtree"))
+            }
+        },
+    );
+    run.cov("state_reuse_diffs_compared_with_fresh_state", reuse_diffs.load(Ordering::Relaxed));
+    run.cov("histories_with_early_end_while_subtrees_pending", early_with_queue.load(Ordering::Relaxed));
+    run.require("a history ended a diff early while sub-trees were pending", early_with_queue.load(Ordering::Relaxed) > 0);
     run.cov("pairs_compared_with_git", compared.load(Ordering::Relaxed));
     run.cov("pairs_with_mode_only_change", mode_only.load(Ordering::Relaxed));
     run.cov("pairs_with_file_dir_swap", type_swaps.load(Ordering::Relaxed));
